@@ -15,12 +15,58 @@ import (
 func init() { Registry["C14"] = checkC14 }
 
 func checkC14(p *core.Prog, r *core.Report) {
-	r.Explanation = "Decides structural necessary conditions of lossless codecs by extracting the byte layout of every straight-line codec function from SSA (constant-bound loops expanded): (R1) every Encode of package protocol writes all 64 positions; (R2) for each of the 20 Encode/Decode pairs every field byte that Decode reads from position p is the byte Encode writes at p (little-endian multi-byte fields, widening before shifting), string fields are read from the region they are written to; (R3) LockCommand and LockResultCommand match the offsets documented in README.md; (R4) every hand-inlined decoder of lock frames in server/ and client/ (functions storing LockCommand fields from a byte buffer) agrees with LockCommand.Decode on every arm, and the inlined result encoder of BinaryServerProtocol agrees with LockResultCommand.Encode; (R5) every RESULT_* code indexes inside ERROR_MSG (every result code has a text rendering); (R7) the text forms COUNT n / RCOUNT n reach the wire as n-1 and results render Count+1 / Rcount+1. NOT decided: text parser independence of chunking, Build/Parse round trip, binary-safety of arguments, effect equivalence of text and binary LOCK, key normalisation (MD5/hex paths)."
+	r.Explanation = "Decides structural necessary conditions of lossless codecs by extracting the byte layout of every straight-line codec function from SSA (constant-bound loops expanded): (R1) every Encode of package protocol writes all 64 positions; (R2) for each of the 20 Encode/Decode pairs every field byte that Decode reads from position p is the byte Encode writes at p (little-endian multi-byte fields, widening before shifting), string fields are read from the region they are written to; (R3) LockCommand and LockResultCommand match the offsets documented in README.md; (R4) every hand-inlined decoder of lock frames in server/ and client/ (functions storing LockCommand fields from a byte buffer) agrees with LockCommand.Decode on every arm, and the inlined result encoder of BinaryServerProtocol agrees with LockResultCommand.Encode; (R5) every RESULT_* code indexes inside ERROR_MSG (every result code has a text rendering); (R7) the text forms COUNT n / RCOUNT n reach the wire as n-1 and results render Count+1 / Rcount+1. (R8) the text parser's in-argument cursor is only reset, accumulated or set to the argument length (a necessary condition of chunking independence; found a real defect, repaired). NOT decided: the rest of chunking independence, Build/Parse round trip, binary-safety of arguments, effect equivalence of text and binary LOCK, key normalisation (MD5/hex paths)."
 	r.Assumptions = []string{"Go type checker and go/ssa are correct for /repo", "codec functions are straight-line apart from constant-bound loops (anything else is reported as uninterpreted)"}
 	c14R123(p, r)
 	c14R4(p, r)
 	c14R5(p, r, "C14/R5")
 	c14R7(p, r)
+	c14R8(p, r)
+}
+
+// c14R8: the text parser is resumable - it returns in the middle of an argument
+// when a read ends there and continues with the next read. cargIndex is its
+// place inside the current argument (digits of a length while in the header
+// stages, payload bytes consumed in the payload stage), so every store to it is
+// a reset (0), an accumulation (old + consumed) or "argument complete"
+// (= cargLen). Any other value makes the place depend on how the bytes were
+// split over reads.
+func c14R8(p *core.Prog, r *core.Report) {
+	const rule = "C14/R8"
+	r.Rule(rule, "text parser: every store to the in-argument cursor is a reset, an accumulation of what was consumed, or the argument length (place independent of chunking)", 12)
+	for _, fn := range p.FuncsIn("protocol") {
+		if fn.Blocks == nil || recvName(fn) != "TextParser" {
+			continue
+		}
+		x := &core.X{Fr: &core.Frame{Fn: fn}, St: core.NewState()}
+		ord := 0
+		for _, b := range fn.Blocks {
+			for _, ins := range b.Instrs {
+				st, ok := ins.(*ssa.Store)
+				if !ok {
+					continue
+				}
+				k, ok := storeKey(st.Addr)
+				if !ok || k.Type != "protocol.TextParser" || k.Field != "cargIndex" {
+					continue
+				}
+				ord++
+				recv := fn.Params[0].Name()
+				v := core.Plain(x.Canon(st.Val).S)
+				key := fmt.Sprintf("%s: store cargIndex#%d", core.FuncName(fn), ord)
+				switch {
+				case v == "0":
+					r.Hold(rule, key, p.InstrPos(ins), "reset")
+				case strings.HasPrefix(v, "("+recv+".cargIndex + "):
+					r.Hold(rule, key, p.InstrPos(ins), "accumulates what this read consumed")
+				case v == recv+".cargLen":
+					r.Hold(rule, key, p.InstrPos(ins), "argument complete")
+				default:
+					r.Violate(rule, key, p.InstrPos(ins), "in-argument cursor set to "+stable(v)+": after an argument that arrived over several reads this is not the number of payload bytes consumed, so the next read (e.g. the trailing CRLF alone) is taken for payload - the argument list depends on how the stream was split", nil)
+				}
+			}
+		}
+	}
 }
 
 func codecTypes(p *core.Prog) []string {
